@@ -30,6 +30,9 @@ func genCase(profile string) *rapid.Generator[Case] {
 	return rapid.Custom(func(t *rapid.T) Case {
 		var c Case
 		c.Cfg.Workers = rapid.IntRange(1, 4).Draw(t, "workers")
+		if rapid.IntRange(0, 2).Draw(t, "workers2") == 0 {
+			c.Cfg.Workers2 = rapid.IntRange(1, 4).Draw(t, "workers2n") // another worker count after a restart
+		}
 		c.Cfg.InCh = rapid.IntRange(1, 8).Draw(t, "inch")
 		c.Cfg.QDurMs = rapid.SampledFrom([]int{1000, 3000}).Draw(t, "qdur")
 		var sets []string
